@@ -492,15 +492,24 @@ class VectorT {
 
         //------------------------------------------------------------ euclidean norm
 
+        /// |x|: the identity for unsigned scalars, for which std::abs is ambiguous
+        static Scalar abs_value(const Scalar &_x) {
+            if constexpr (std::is_unsigned<Scalar>::value) {
+                return _x;
+            } else {
+                return std::abs(_x);
+            }
+        }
+
         /// \name Non-Euclidean norm calculations
         //@{
 
         /// compute L1 (Manhattan) norm
         Scalar l1_norm() const {
             return std::accumulate(values_.cbegin() + 1, values_.cend(),
-                    std::abs(values_[0]),
+                    abs_value(values_[0]),
                     [](const Scalar &l, const Scalar &r) {
-                        return l + std::abs(r);
+                        return l + abs_value(r);
                     });
         }
 
@@ -553,9 +562,9 @@ class VectorT {
         /// return absolute arithmetic mean
         Scalar mean_abs() const {
             return std::accumulate(values_.cbegin() + 1, values_.cend(),
-                    std::abs(values_[0]),
+                    abs_value(values_[0]),
                     [](const Scalar &l, const Scalar &r) {
-                        return l + std::abs(r);
+                        return l + abs_value(r);
                     }) / DIM;
         }
 
